@@ -12,6 +12,7 @@ package helper
 func Buffered[T any](c <-chan T, size int) <-chan T {
 	result := make(chan T, size)
 
+	VerifStage("Buffered", size, []any{c}, []any{result})
 	go Pipe(c, result)
 
 	return result
